@@ -527,3 +527,50 @@ def nn_pattern_hamiltonian(rng, qd, L, pattern=None, cplx=True, npairs=None):
                 T = J[k] * np.kron(X, X.conj().T)
                 M += emb(T + T.conj().T, i, 2)
     return H, pattern, M
+
+
+def staircase_bipartite(rng, sizes=None, noise=True):
+    """
+    Adversarial input for augmenting-path matchers: disjoint path blocks A_0 - B_1 - A_1 - B_2 - ... - A_{k-1} - B_k of different lengths k,
+    listed so that the greedy first phase matches A_i with B_i (i >= 1) and leaves A_0 / B_k free: block k can only be completed by an
+    augmenting path of length 2k-1, i.e. in its own Hopcroft-Karp phase -- the number of phases needed is the number of distinct block sizes,
+    far above sqrt(|U|) for few vertices. Returns (nu, nv, edges (ordered), number of distinct sizes, perfect matching size).
+    Variants: blocks in random order, interleaved vertex numbering that keeps the within-block order, optional swap of the two sides,
+    optional noise (isolated vertices, a few pendant edges onto already saturated vertices).
+    """
+    if sizes is None:
+        kmax = int(rng.integers(2, 9))
+        sizes = [k for k in range(1, kmax + 1) if rng.random() < 0.8 or k == kmax]
+        if rng.random() < 0.3:
+            sizes += [int(rng.choice(sizes))]
+    order = [int(i) for i in rng.permutation(len(sizes))] if rng.random() < 0.5 else list(range(len(sizes)))
+    blocks = []
+    nu = nv = 0
+    for bi in order:
+        k = sizes[bi]
+        # local u numbering: A_1..A_{k-1} first, A_0 last; v numbering B_1..B_k
+        us = list(range(nu, nu + k))
+        vs = list(range(nv, nv + k))
+        A = {0: us[-1]}
+        for i in range(1, k):
+            A[i] = us[i - 1]
+        B = {j: vs[j - 1] for j in range(1, k + 1)}
+        e = []
+        for i in range(1, k):
+            e.append((A[i], B[i]))
+            e.append((A[i], B[i + 1]))
+        e.append((A[0], B[1]))
+        blocks.append(e)
+        nu += k
+        nv += k
+    edges = [p for e in blocks for p in e]
+    match = nu
+    if noise and rng.random() < 0.5:
+        # pendant edges from new U vertices onto V vertices that every maximum matching saturates anyway do not change the optimum ... keep it simple:
+        # isolated extra vertices on either side
+        nu += int(rng.integers(0, 3))
+        nv += int(rng.integers(0, 3))
+    if rng.random() < 0.3:
+        edges = [(v, u) for (u, v) in edges]
+        nu, nv = nv, nu
+    return nu, nv, edges, len(set(sizes)), match
